@@ -105,6 +105,18 @@ func classifyDump(dump string) (bool, string, string) {
 	if len(involved) == 0 {
 		return false, "no goroutine in nats_server.go", ""
 	}
+	// A NATS callback parked in the send to the work queue: the barrier that
+	// Serve waits for inside drainNatsMessages cannot complete before that
+	// callback returns, i.e. before some worker receives.
+	handlerBlocked := false
+	for _, g := range involved {
+		if !strings.HasPrefix(g.state, "chan send") || len(g.frames) == 0 {
+			continue
+		}
+		if f := g.frames[0]; strings.HasSuffix(f.fn, "(*fNatsServer).handler") && inServerFile(f.file) {
+			handlerBlocked = true
+		}
+	}
 	var ex strings.Builder
 	roles := map[string]int{}
 	allParked := true
@@ -120,6 +132,12 @@ func classifyDump(dump string) (bool, string, string) {
 			}
 		}
 		role := "other"
+		onWorker := false
+		for _, f := range g.frames {
+			if strings.HasSuffix(f.fn, "(*fNatsServer).worker") {
+				onWorker = true
+			}
+		}
 		for _, f := range g.frames {
 			switch {
 			case strings.HasSuffix(f.fn, "(*fNatsServer).Serve"):
@@ -134,7 +152,16 @@ func classifyDump(dump string) (bool, string, string) {
 				}
 			}
 		}
-		parked := parkedState(g.state) && inServerFile(top.file) && !strings.Contains(top.fn, "drainNatsMessages")
+		if role == "Stop" && onWorker {
+			role = "Stop-on-worker"
+		}
+		parked := parkedState(g.state) && inServerFile(top.file)
+		if parked && strings.Contains(top.fn, "drainNatsMessages") {
+			// waiting on the NATS client library: only the unbounded wait for
+			// the barrier behind a blocked callback is a closed cycle (a
+			// select with a timer, a Flush, ... can still make progress)
+			parked = handlerBlocked && strings.HasPrefix(g.state, "chan receive")
+		}
 		st := g.state
 		if j := strings.Index(st, ","); j > 0 {
 			st = st[:j]
